@@ -309,7 +309,11 @@ Record thread := { t_id : name; t_prog : list event; t_hung : bool; t_done : boo
 Inductive mainpc := MStart (rest : list name) | MWait | MRun | MExited.
 Record sys := { s_node : node; s_threads : list thread; s_pc : mainpc }.
 
-(* start-up part of __pollThread for the modules registered at the owner *)
+(* start-up part of __pollThread for the modules registered at the owner.
+   A write function that raises (CommunicationFailedError, any other SECoPError, any other exception) is caught inside
+   Module.writeInitParams, which goes on with the next configured value: the attempt is the event EWrite, the program
+   of the thread does not depend on its outcome (fact writeinitparams_absorbs_write_errors of Gen/C15.v; the driver
+   scripts such failures, field wfail of a case, and the model is compared on them). *)
 Definition thread_prog (st : node) (t : name) : list event :=
   let L := polled_of st t in
   flat_map (fun m => map (EWrite m) (d_writes (decl_of st m)) ++ [EIReads m]) L ++
